@@ -1,0 +1,31 @@
+//go:build verif
+
+package bgzf
+
+import (
+	"bytes"
+	"compress/gzip"
+)
+
+// VerifC14NewBlock manufactures a Block the way the reader's decompressor
+// leaves one after a successful member read: base and header set, data
+// present (zero bytes of it), and the used flag as requested. size is the
+// BGZF member size announced in the header, so NextBase() = base + size.
+// Block has unexported methods, so this cannot be written outside the package.
+func VerifC14NewBlock(base int64, used bool, size int) Block {
+	b := &block{}
+	VerifC14Rebase(b, base, used, size)
+	return b
+}
+
+// VerifC14Rebase overwrites b with another member, as
+// decompressor.nextBlockAt does with a block the reader owns
+// (setBase, setHeader, readFrom), and sets the used flag.
+func VerifC14Rebase(b Block, base int64, used bool, size int) {
+	blk := b.(*block)
+	blk.setBase(base)
+	s := size - 1
+	blk.setHeader(gzip.Header{Extra: []byte{'B', 'C', 2, 0, byte(s), byte(s >> 8)}})
+	blk.buf = bytes.NewReader(blk.data[:0])
+	blk.used = used
+}
